@@ -19,6 +19,9 @@ type zvC04ConcCase struct {
 	Setup    []zvC04Op   `json:"setup"`
 	Mut      []zvC04Op   `json:"mutations"`
 	Unreg    bool        `json:"with_unregister"`
+	// Disp: instead of register(c0) || ... || unregister(c1), the table is disposed next to the route changes while
+	// client 1 is registered: it must receive nothing once Dispose has returned
+	Disp bool `json:"with_dispose,omitempty"`
 	Schedule []int       `json:"schedule"`
 	Bound    int         `json:"preemption_bound"`
 }
@@ -28,11 +31,27 @@ func zvC04ConcRun(r *vh.Run, c zvC04ConcCase, only []int) {
 	body := func() {
 		e := zvC04NewEnv("nested", c.Opts[:])
 		e.Prologue()
-		if c.Unreg {
+		if c.Unreg || c.Disp {
 			e.Apply(zvC04Op{Kind: "register", C: 1})
 		}
 		for _, o := range c.Setup {
 			e.Apply(o)
+		}
+		if c.Disp {
+			hs := []vsched.Handle{
+				vsched.GoNamed("route-changes", func() {
+					for _, o := range c.Mut {
+						e.Apply(o)
+					}
+				}),
+				vsched.GoNamed("dispose", func() {
+					e.Rib.Dispose()
+					e.Reg[1], e.Via[1], e.Mark[1] = false, "dispose", len(e.Clients[1].Calls)
+				}),
+			}
+			vsched.Join(hs...)
+			diffs = e.Check()
+			return
 		}
 		hs := []vsched.Handle{
 			vsched.GoNamed("register", func() { e.Apply(zvC04Op{Kind: "register", C: 0}) }),
@@ -120,6 +139,10 @@ func zvC04Concurrent(r *vh.Run) {
 					}
 					c := zvC04ConcCase{Opts: [2]zvC04Opt{o0, opts[(idx)%len(opts)]}, Setup: x.setup, Mut: mut, Unreg: unreg, Bound: bound}
 					zvC04ConcRun(r, c, nil)
+					if unreg {
+						c.Unreg, c.Disp = false, true
+						zvC04ConcRun(r, c, nil)
+					}
 				}
 			}
 		}
